@@ -144,12 +144,13 @@ Fixpoint check_stmt (ret : ty) (inloop : bool) (G : tenv) (s : stmt) {struct s} 
         | TBool => tbind (check_stmt ret true ([] :: G) body) (fun _ => TOk G)
         | _ => TErr ENonBoolCond
         end)
-  | SFor x t lo hi body =>
+  | SFor x t lo hi incl step body =>
       tbind (check_expr G lo) (fun tl =>
       tbind (check_expr G hi) (fun th =>
-        if ty_eqb tl (TInt t) && ty_eqb th (TInt t)
+      tbind (check_expr G step) (fun ts =>
+        if ty_eqb tl (TInt t) && ty_eqb th (TInt t) && ty_eqb ts (TInt t)
         then tbind (check_stmt ret true ([(x, TInt t)] :: G) body) (fun _ => TOk G)
-        else TErr EMixedOperands))
+        else TErr EMixedOperands)))
   | SBreak | SContinue => if inloop then TOk G else TErr EBreakOutsideLoop
   | SReturn None => match ret with TVoid => TOk G | _ => TErr EMissingReturnValue end
   | SReturn (Some e) =>
